@@ -73,6 +73,9 @@ fn mk_c04() -> Vec<Box<dyn Monitor>> {
 fn mk_c15() -> Vec<Box<dyn Monitor>> {
     vec![Box::new(mon::byz::C15::new())]
 }
+fn mk_c20() -> Vec<Box<dyn Monitor>> {
+    vec![Box::new(mon::c20::C20)]
+}
 fn mk_c06() -> Vec<Box<dyn Monitor>> {
     vec![Box::new(mon::swaps::C06)]
 }
@@ -272,6 +275,18 @@ fn specs() -> Vec<CheckSpec> {
         level: "fault_enumeration",
         rule: "same worlds as C04; each successful fund-moving instruction (swap, swap_v2, two-hop x2, increase/decrease x4, by-token-amounts, reposition, collect fees / reward / protocol fees x6, update-fees, set-reward-emissions x2, initialise-reward x2) is replayed on forks of its pre-state with one account slot at a time substituted by a well-formed account of the same type that belongs elsewhere: another pool, a vault / token account / mint of another mint, another (non-vault) token account of the same mint in a vault slot, a tick array or position or oracle of another pool, another position of the same pool, another program (incl. the other token program), the same pool for both two-hop legs; slots where another account is legitimately acceptable (any token account of the right mint as source/destination, same-pool arrays in swaps, same-pool positions in update-fees) are excluded; every substitution must be rejected; the matrix is reported cell by cell; a case is one (instruction, slot, substitute kind) cell",
         quick_runs: 300,
+        thorough_secs: 600,
+        assumptions: COMMON_ASSUMPTIONS,
+        extra: None,
+    },
+    CheckSpec {
+        id: "C20",
+        profile: Profile::Core,
+        more_profiles: &[Profile::Adaptive, Profile::T22],
+        mk: mk_c20,
+        level: "exploration",
+        rule: "HIST (core, adaptive-fee and transfer-fee worlds) the Rust core SDK (rust-sdk/core from the working tree, built against an ethnum shim) is fed with facades built from the ledger at the pre-state of every landed swap / swap_v2 and increase / decrease (v1, v2): compute_swap with the transaction's own limit must succeed whenever the program did and give the same amounts in, out and total fee (static and adaptive pools); where the program refused with a quote-level error (zero amount, limit direction, limit out of bounds) the SDK must not produce a number; swap_quote_by_input/output_token (transfer fees included) and increase/decrease_liquidity_quote must equal the balances that moved, with slippage-adjusted min/max on the safe side; tick<->price conversions are compared on the values reached; a case is one (instruction, direction, mode, program outcome, SDK outcome, adaptive, complete arrays, limit) tuple",
+        quick_runs: 400,
         thorough_secs: 600,
         assumptions: COMMON_ASSUMPTIONS,
         extra: None,
